@@ -133,13 +133,17 @@ def observe(R, t, node_map, radii, p_orig, chain):
 _BASE: dict = {}
 
 
-def base_of(R, p, bank_k, variant):
-    key = (bank_k, variant, tuple(p))
+def _types(n, root_type):
+    return None if root_type == 1 else [root_type] + [3] * (n - 1)
+
+
+def base_of(R, p, bank_k, variant, root_type=1):
+    key = (bank_k, variant, tuple(p), root_type)
     if key not in _BASE:
         n = len(p)
         xyz, rad = build.generic_geometry(n, bank_k)
         xyz = [tuple(c * SHRINK[variant] for c in q) for q in xyz]
-        t = build.make_tree(p, xyz=xyz, r=rad)
+        t = build.make_tree(p, xyz=xyz, r=rad, types=_types(n, root_type))
         radii = RF.sholl_midgap_radii(p, xyz)
         chain = not ref.furcations(p)
         np.random.seed(dg("C11-base", p) % (2 ** 32))
@@ -166,7 +170,7 @@ class _Quiet:
 def transform_of(case):
     """-> (perm, axis_idx|None, angle_idx, offset_idx, scale)."""
     kind = case[2]
-    if kind == "motion":
+    if kind in ("motion", "motion-rt"):
         return None, int(case[3]), int(case[4]), int(case[5]), 1.0
     if kind == "renum":
         perm = [int(v) for v in case[3]]
@@ -186,16 +190,19 @@ def check_case(case, R):
     p = [int(v) for v in case[0]]
     bank_k, variant = int(case[1][0]), int(case[1][1])
     n = len(p)
-    xyz, rad, radii, chain, base, base_errors = base_of(R, p, bank_k, variant)
+    root_type = int(case[6]) if case[2] == "motion-rt" else 1
+    xyz, rad, radii, chain, base, base_errors = base_of(R, p, bank_k, variant, root_type)
     perm, ai, gi, oi, s = transform_of(case)
     R.state(p, case[1:])
     identity = (perm is None or perm == list(range(n))) and ai is None and s == 1.0
     if n < 2 or identity:
         R.trivial()
     ctx = f"p={p} bank={bank_k} geometry={'bank' if variant == 0 else 'compact (coordinates/8)'} transform={list(case[2:])}"
-    if base_errors:
+    if base_errors and root_type == 1:
         R.fail("raises:base", f"{ctx}: evaluation on the untransformed tree raised: {base_errors[:3]}", "raises:base-tree")
         return
+    # a tree whose root is not typed as soma: observables that refuse such a tree (on the base tree already) are outside; the rest
+    # must be as invariant as for any other tree
 
     # ---- build T' in float64, store as float32
     off = OFFSETS[oi]
@@ -204,10 +211,10 @@ def check_case(case, R):
     rad2 = [s * r for r in rad]
     node_map = list(range(n)) if perm is None else perm
     p2, xyz2p, rad2p = RF.renumber(p, node_map, xyz2, rad2)
-    t2 = build.make_tree(p2, xyz=xyz2p, r=rad2p)
+    t2 = build.make_tree(p2, xyz=xyz2p, r=rad2p, types=_types(n, root_type))
     snap = build.snapshot(t2)
     np.random.seed(dg("C11", case) % (2 ** 32))
-    got = observe(R, t2, node_map, [s * r for r in radii], p, chain)
+    got = observe(R if root_type == 1 else _AllowRaise(R, set(base)), t2, node_map, [s * r for r in radii], p, chain)
     R.check(build.snapshot(t2) == snap, "input-modified", lambda: f"{ctx}: the tree was modified by feature evaluation")
 
     # ---- tolerances (see ASSUMPTIONS)
@@ -460,6 +467,93 @@ class _AllowRaise:
         return self.R.attempt(fn, *a, **k)
 
 
+# ------------------------------------------------------------------ an evaluation that fails, then one that must not notice
+
+FAIL_KINDS = ["nan-coordinate", "inf-radius", "huge-radius", "dangling-parent", "unknown-feature", "bad-accuracy", "one-node-sholl"]
+
+
+def _failing_call(kind, p, xyz, rad):
+    """Something that goes wrong (or is at least unusual) inside the analysis code: what it returns or raises is not judged."""
+    from swcgeom.analysis import Sholl, extract_feature, get_volume
+    from swcgeom.core import Tree
+
+    n = len(p)
+    x = [list(q) for q in xyz]
+    r = list(rad)
+    k = n // 2
+    if kind == "nan-coordinate":
+        x[k][0] = float("nan")
+    elif kind == "inf-radius":
+        r[k] = float("inf")
+    elif kind == "huge-radius":
+        r[k] = 1e30
+    if kind in ("nan-coordinate", "inf-radius", "huge-radius"):
+        t = build.make_tree(p, xyz=[tuple(q) for q in x], r=r)
+        for fn in (lambda: get_volume(t), lambda: get_volume(t, accuracy=3), lambda: t.length(), lambda: extract_feature(t).get("sholl"),
+                   lambda: extract_feature(t).get("branch_tortuosity")):
+            try:
+                fn()
+            except Exception:  # noqa: BLE001
+                pass
+        return
+    if kind == "dangling-parent":
+        pp = list(p)
+        pp[-1] = n + 3
+        try:
+            t = Tree(n, id=np.arange(n, dtype=np.int32), pid=np.array(pp, dtype=np.int32), x=np.zeros(n, np.float32), y=np.zeros(n, np.float32),
+                     z=np.arange(n, dtype=np.float32), r=np.ones(n, np.float32), type=np.ones(n, np.int32))
+            for fn in (lambda: get_volume(t), lambda: t.length(), lambda: t.get_branches(), lambda: extract_feature(t).get("path_length")):
+                try:
+                    fn()
+                except Exception:  # noqa: BLE001
+                    pass
+        except Exception:  # noqa: BLE001
+            pass
+        return
+    t = build.make_tree(p, xyz=xyz, r=rad)
+    try:
+        if kind == "unknown-feature":
+            extract_feature(t).get("no_such_feature")
+        elif kind == "bad-accuracy":
+            get_volume(t, accuracy=11)
+        else:
+            Sholl(build.make_tree([-1])).get(5)
+    except Exception:  # noqa: BLE001
+        pass
+
+
+def check_after_failure(case, R):
+    """History: every observable of a tree, then an evaluation that fails part-way (malformed / non-finite input, bad argument),
+    then the same observables on a fresh identical tree: they must be the numbers obtained before the failure."""
+    case = jsonable(case)
+    p = [int(v) for v in case[0]]
+    bank_k, variant, kind = int(case[1][0]), int(case[1][1]), case[2]
+    n = len(p)
+    R.state(p, case[1:])
+    xyz, rad = build.generic_geometry(n, bank_k)
+    xyz = [tuple(c * SHRINK[variant] for c in q) for q in xyz]
+    radii = RF.sholl_midgap_radii(p, xyz)
+    chain = not ref.furcations(p)
+    ident = list(range(n))
+    seed = dg("C11-fail", case) % (2 ** 32)
+    np.random.seed(seed)
+    q0 = _Quiet()
+    before = observe(q0, build.make_tree(p, xyz=xyz, r=rad), ident, radii, p, chain)
+    R.attempt(_failing_call, kind, p, xyz, rad)
+    np.random.seed(seed)
+    after = observe(_AllowRaise(R, set(before)), build.make_tree(p, xyz=xyz, r=rad), ident, radii, p, chain)
+    for name, (dim, kd, bv) in before.items():
+        if name not in after:
+            continue
+        av = after[name][2]
+        if kd == "multiset":
+            av, bv = sorted(av), sorted(bv)
+        R.check(_same(av, bv), "changed-after-failed-evaluation:" + name.split("[")[0],
+                lambda: f"p={p} bank={bank_k}: {name} = {bv} before, {av} after an evaluation that failed ({kind})",
+                f"changed-after-failed-evaluation:{name.split('[')[0]}:{kind}")
+    R.outcome(p, kind, len(after))
+
+
 def spaces(tier, seed):
     bank_k = seed % 4
     mot_hi, ren_hi, sc_hi = (5, 5, 5) if tier == "quick" else (6, 6, 7)
@@ -514,14 +608,37 @@ def spaces(tier, seed):
                     for si in range(len(DYADIC_SIGNS)):
                         yield (p, bank_k, gi, k, si)
 
+    def gen_motion_rt():
+        for p in trees(mot_hi - 1):
+            for rt in (3, 2, 0):
+                for ai in (0, 3):
+                    for gi in (1, 2):
+                        for oi in range(len(OFFSETS)):
+                            for g in geoms:
+                                yield (p, g, "motion-rt", ai, gi, oi, rt)
+
+    def gen_fail():
+        for p in trees(der_hi + 1):
+            if len(p) < 2:
+                continue
+            for g in geoms:
+                for kind in FAIL_KINDS:
+                    yield (p, g, kind)
+
     common = {"bank": bank_k, "geometries": ["bank", "bank with coordinates / 8 and unchanged radii (overlapping and nested spheres)"], "axes": AXES, "angles": ANGLES, "offsets": OFFSETS, "scales": SCALES, "composed_with": COMBO}
     return [
         Space.of("rigid-motions", gen_motion, check_case, bounds={"ST_max_nodes": mot_hi, **common}),
+        Space.of("rigid-motions-soma-less-root", gen_motion_rt, check_case,
+                 bounds={"ST_max_nodes": mot_hi - 1, "root_types": [3, 2, 0], "axes": [AXES[0], AXES[3]], "angles": [ANGLES[1], ANGLES[2]], "offsets": OFFSETS,
+                         "note": "observables that refuse a tree without a soma-typed root already on the untransformed tree are outside"}),
         Space.of("renumberings", gen_renum, check_case, bounds={"ST_max_nodes": ren_hi, "renumberings": "all (n-1)! fixing the root, alone and composed", **common}),
         Space.of("scalings", gen_scale, check_case, bounds={"ST_max_nodes": sc_hi, **common}),
         Space.of("measured-then-derived", gen_derived, check_derived,
                  bounds={"ST_max_nodes": der_hi, "derivations": DERIVE_HOWS, "scales": [2.0, 0.5], "offset": OFFSETS[1],
                          "oracle": "observables of the derived tree == observables of a freshly built tree with bit-identical columns"}),
+        Space.of("after-a-failed-evaluation", gen_fail, check_after_failure,
+                 bounds={"ST_max_nodes": der_hi + 1, "failures": FAIL_KINDS,
+                         "oracle": "observables of a fresh identical tree after the failure == before it"}),
         Space.of("exact-translations", gen_dyadic, check_dyadic,
                  bounds={"ST_max_nodes": dya_hi, "geometries (grain, shrink, max k)": DYADIC_GEOM, "offsets": [f"+-2^{k}" for k in DYADIC_SHIFTS], "sign_patterns": DYADIC_SIGNS,
                          "note": "dyadic coordinates + power-of-two offsets: the translation is exact in float32, so segment vectors are bit-identical"}),
